@@ -621,3 +621,17 @@ SEEDED_ON.setdefault("C13", []).extend([
 SEEDED_ON.setdefault("C15", []).extend([
     ("benign/C15-b5/patch.diff", CEN, "frame_sum = lambda values: values.sum(-1).sum(-1)", "frame_sum = lambda values: values.sum()", "H"),
 ])
+
+_C18E = "selftest/refactorings/c18_edges_form.diff"        # split -> group conversion written with an edge array
+SEEDED_ON.setdefault("C18", []).extend([
+    (_C18E, PC, "    if splits.size == 0:", "    if not splits.any():", "E2.no-splits"),
+    (_C18E, PC, "numpy.concatenate(([0], splits+1, [N]))", "numpy.concatenate(([0], splits, [N]))", "E2.tiling"),
+    (_C18E, PC, "zip(edges[:-1], edges[1:])", "zip(edges[:-1], edges[2:])", "E2.tiling"),
+])
+
+_C11F = "selftest/refactorings/c11_unit_fast_path.diff"    # angularSpectrum skips the chirps when the two spacings are equal
+SEEDED_ON.setdefault("C11", []).extend([
+    (_C11F, OP, "    if outputSpacing == inputSpacing:", "    if numpy.isclose(outputSpacing, inputSpacing):", "G5"),
+    (_C11F, OP, "    if outputSpacing == inputSpacing:", "    if outputSpacing >= inputSpacing:", "G5"),
+    (_C11F, OP, "        Q1 = Q3 = 1.\n", "        Q1 = 1.\n        Q3 = -1.\n", "G"),
+])
